@@ -115,3 +115,67 @@ Fixpoint sknown (fuel : nat) (k : list sst) : bool :=
                         | _ => true
                         end) k
   end.
+
+(* ---- the reply side (gen/Gen_socks.v: socks4_first_response_code, socks5_first_response_code, socks5_auth_response_code,
+   socks5_connect_response_code, socks5_connect_response_rest_code) and the two remaining builders socks5_start_code,
+   socks5_request_connection_code.  One call of a state method: _read(n) has delivered the bytes d (the caller, next_message /
+   _handshake, supplies them - model/Socks.v `need`); the statements then decide what happens: an exception, a message to
+   send and the next state, "call next_message() again" with the next state, or None (finished). ---- *)
+Fixpoint rcond_eval (c : cfg) (d : bytes) (x : rcond) : option bool :=
+  match x with
+  | CNe i v => Some (negb (N.eqb (nth0 d i) v))
+  | CEq i v => Some (N.eqb (nth0 d i) v)
+  | CNotInMethods i => Some (negb (mem (nth0 d i) (auth_methods (c_auth c))))
+  | CNotIn i l => Some (negb (mem (nth0 d i) l))
+  | COr a b => match rcond_eval c d a, rcond_eval c d b with Some p, Some q => Some (p || q) | _, _ => None end
+  | CUnknown => None
+  end.
+
+Definition state_of (q : qstate) : state := match q with QFirst => S5First | QAuth => S5Auth | QConn => S5Conn end.
+
+Inductive rres := RAct (a : action) (read : option nat) | RRStuck.
+
+(* st: the state a `self._state = ...` has set so far; al: addr_len; rd: what _read was asked for *)
+Fixpoint rexec (fuel : nat) (c : cfg) (d : bytes) (st : option state) (al : option nat) (rd : option nat) (k : list rst) : rres :=
+  match fuel with
+  | O => RRStuck
+  | S f =>
+      match k with
+      | [] => RRStuck
+      | s :: r =>
+          match s with
+          | RRead n => rexec f c d st al (Some n) r
+          | RReadRest => match al with Some a => rexec f c d st al (Some (a + 2)) r | None => RRStuck end
+          | RIf x a b => match rcond_eval c d x with
+                         | Some true => rexec f c d st al rd (a ++ r)
+                         | Some false => rexec f c d st al rd (b ++ r)
+                         | None => RRStuck
+                         end
+          | RRaiseProto => RAct (Raise ProtoErr) rd
+          | RRaiseFail => RAct (Raise Failure) rd
+          | RSetState q => rexec f c d (Some (state_of q)) al rd r
+          | RSetStateRest => match al with Some a => rexec f c d (Some (S5Rest a)) al rd r | None => RRStuck end
+          | RSetAddrLen (ALit n) => rexec f c d st (Some n) rd r
+          | RSetAddrLen (AData i) => rexec f c d st (Some (N.to_nat (nth0 d i))) rd r
+          | RReturnAuthBytes => match st with Some q => RAct (Send (auth_bytes (c_auth c)) q) rd | None => RRStuck end
+          | RReturnRequestConnection =>
+              (* inlines socks5_request_connection_code: sets the state, returns the CONNECT request *)
+              match rexec f c d st al rd socks5_request_connection_code with
+              | RAct a _ => RAct a rd
+              | RRStuck => RRStuck
+              end
+          | RReturnNext => match st with Some q => RAct (Continue q) rd | None => RRStuck end
+          | RReturnNone => RAct Finish rd
+          | RReturnGreeting => match st with
+                               | Some q => RAct (Send (s5_version :: N.of_nat (length (auth_methods (c_auth c))) :: auth_methods (c_auth c)) q) rd
+                               | None => RRStuck end
+          | RReturnConnect => match st with
+                              | Some q => RAct (Send ([5; 1; 0]%N ++ destination_bytes (c_dest c) (c_port c)) q) rd
+                              | None => RRStuck end
+          | RUnknown => RRStuck
+          end
+      end
+  end.
+
+Definition run_reply (code : list rst) (c : cfg) (d : bytes) : rres := rexec SFUEL c d None None None code.
+Definition run_rest (c : cfg) (n : nat) (d : bytes) : rres := rexec SFUEL c d None (Some n) None socks5_connect_response_rest_code.
